@@ -56,7 +56,7 @@ class Obj(Engine):
                        'SignatureHash / RawSignatureHash', 'VerifyScript']
     stubbed_components = ['nothing: no environment is involved in these properties']
     sim_time_note = 'no clock or timers: the explored dimension is the order of operations on an aliased object graph'
-    nontrivial_rule = ('run = one history (systematic preamble: every history of length <= 3 over a 24-operation alphabet on two initial transactions; then seeded histories of '
+    nontrivial_rule = ('run = one history (systematic preamble: every history of length <= 3 over a 27-operation alphabet on two initial transactions; then seeded histories of '
                        '4-60 operations) on a pool of <= 6 handles; distinct = distinct trace-shape digest (operation kinds and targets); '
                        'non-trivial = >= 2 handles interacted (copy/snapshot/block/eq) or a cache was planted before an edit')
     quick_runs = 4000
@@ -86,10 +86,12 @@ class Obj(Engine):
                     'stacks': [gen.gen_stack(rng) for _ in range(8)]}
         if r < 0.64:
             return {'op': 'snapshot', 'h': h, 'part': rng.choice(['self', 'self', 'vin', 'vout', 'prevout']), 'i': i}
+        if r < 0.66:
+            return {'op': 'badset', 'h': h, 'field': rng.choice(['nLockTime', 'nVersion', 'vout.nValue', 'vin.nSequence']), 'i': i}
         if r < 0.70:
             return {'op': 'mcopy', 'h': h, 'part': rng.choice(['self', 'self', 'vin', 'vout', 'prevout']), 'i': i}
-        if r < 0.72:
-            return {'op': 'rt', 'h': h}
+        if r < 0.73:
+            return {'op': 'rt', 'h': h, 'enc': rng.choice(['canon', 'canon', 'marker-empty', 'nonminimal', 'nonminimal']), 'sel': rng.randrange(64)}
         if r < 0.76:
             return {'op': 'block', 'hs': [rng.randrange(MAXH) for _ in range(rng.randint(1, 3))], 'header': gen.gen_header(rng),
                     'wire': rng.random() < 0.4}
@@ -172,6 +174,9 @@ class Obj(Engine):
                 {'op': 'block', 'hs': [0], 'header': {'version': 2, 'prev': '00' * 32, 'merkle': '00' * 32, 'time': 1, 'bits': 2, 'nonce': 3}},
                 {'op': 'block', 'hs': [0, 1], 'header': {'version': 2, 'prev': '00' * 32, 'merkle': 'ab' * 32, 'time': 1, 'bits': 2, 'nonce': 3}, 'wire': True},
                 {'op': 'set', 'h': 1, 'field': 'vin.scriptSig', 'i': 0, 'value': '00'},
+                {'op': 'rt', 'h': 0, 'enc': 'canon', 'sel': 0},
+                {'op': 'rt', 'h': 1, 'enc': 'marker-empty', 'sel': 0},
+                {'op': 'rt', 'h': 0, 'enc': 'nonminimal', 'sel': 0},
             ]
             type(self).ALPHABET = A
         return self.ALPHABET
@@ -476,12 +481,71 @@ class Obj(Engine):
             ctx.probe('%s.%s' % (op, kind))
             log('%s/%s' % (kind, part), [hidx, k2])
             return k2
+        if op == 'badset':
+            hidx = a['h'] % len(self.pool)
+            h = self.pool[hidx]
+            if h.kind != 'tx' or not h.mutable:
+                log('skip')
+                return None
+            f = a['field']
+            try:
+                if f == 'nLockTime':
+                    tgt, name, bad = h.obj, 'nLockTime', 2 ** 32
+                elif f == 'nVersion':
+                    tgt, name, bad = h.obj, 'nVersion', 2 ** 31
+                elif f == 'vout.nValue':
+                    if not len(h.obj.vout) or type(h.obj.vout[a['i'] % len(h.obj.vout)]) is C.CTxOut:
+                        log('skip')
+                        return None
+                    tgt, name, bad = h.obj.vout[a['i'] % len(h.obj.vout)], 'nValue', 2 ** 63
+                else:
+                    if not len(h.obj.vin) or type(h.obj.vin[a['i'] % len(h.obj.vin)]) is C.CTxIn:
+                        log('skip')
+                        return None
+                    tgt, name, bad = h.obj.vin[a['i'] % len(h.obj.vin)], 'nSequence', 2 ** 32
+                good = getattr(tgt, name)
+                setattr(tgt, name, bad)
+                raised = 0
+                for fn in (h.obj.serialize, h.obj.GetHash, h.obj.GetTxid, lambda: hash(h.obj)):
+                    try:
+                        fn()
+                    except Exception:
+                        raised += 1
+                setattr(tgt, name, good)
+                ctx.probe('serialisation-failed-then-repaired' if raised else 'badset-did-not-raise')
+            except StopRun:
+                raise
+            log(f, hidx)
+            return hidx
         if op == 'rt':
             hidx = a['h'] % len(self.pool)
             h = self.pool[hidx]
+            enc = a.get('enc', 'canon')
+            raw = None
+            if enc != 'canon':
+                # the peer that sends this object back encodes it loosely: a form the decoder accepts
+                # although it is not the one the object serialises to
+                try:
+                    if h.kind == 'tx':
+                        raw = RW.enc_tx_loose(h.model, enc, a.get('sel', 0))
+                    elif h.kind == 'block' and h.model['txs']:
+                        k = a.get('sel', 0) % len(h.model['txs'])
+                        one = RW.enc_tx_loose(h.model['txs'][k], enc, a.get('sel', 0) // len(h.model['txs']))
+                        if one is not None:
+                            raw = RW.enc_header(h.model) + RW.compact(len(h.model['txs'])) + b''.join(
+                                one if j == k else RW.enc_tx(t) for j, t in enumerate(h.model['txs']))
+                except (struct.error, ValueError, KeyError, OverflowError):
+                    raw = None
+                if raw is not None:
+                    ctx.fault('loose-encoding.' + enc)
             try:
-                new = type(h.obj).deserialize(h.obj.serialize())
+                new = type(h.obj).deserialize(h.obj.serialize() if raw is None else raw)
             except Exception as e:
+                if raw is not None:
+                    # a decoder may refuse a non-canonical form (C01 pins only canonical encodings)
+                    ctx.probe('loose-encoding-refused')
+                    log(h.kind, 'refused')
+                    return None
                 ctx.check(False, 'C09.ser', 'wire round trip of a %s raised %s: %s' % (h.kind, type(e).__name__, e), kind=h.kind)
                 return None
             m2 = copy.deepcopy(h.model)
